@@ -24,7 +24,7 @@ struct Graph {
 struct State {
     turn: Option<usize>,
     at_yield: Vec<Option<(YieldKind, i32)>>,
-    done: Vec<Option<Result<i32, String>>>,
+    done: Vec<Option<Result<(i32, String), String>>>,
 }
 
 struct Sched {
@@ -99,7 +99,13 @@ fn run_schedule(graphs: &[Graph], b0: i32, schedule: &[usize], follow_prefix_by_
             let res = std::panic::catch_unwind(std::panic::AssertUnwindSafe(|| {
                 let mut solver = Dinic::from_edge_list(edges, g.s, g.t);
                 solver.run_with_upper_bound(bound);
-                solver.max_flow()
+                solver.max_flow().map(|v| {
+                    let bits: String = match solver.assignment(g.s) {
+                        Ok(a) => a.iter().map(|b| if *b { '1' } else { '0' }).collect(),
+                        Err(_) => "ERR".to_string(),
+                    };
+                    (v, bits)
+                })
             }))
             .unwrap_or_else(|_| Err("PANIC".to_string()));
             let mut st = sched.m.lock().unwrap();
@@ -170,9 +176,9 @@ fn run_schedule(graphs: &[Graph], b0: i32, schedule: &[usize], follow_prefix_by_
     let st = sched.m.lock().unwrap();
     for tid in 0..n {
         match &st.done[tid] {
-            Some(Ok(v)) => tr.obs.push(format!("D out i={tid} st=F value={v}")),
-            Some(Err(_)) => tr.obs.push(format!("D out i={tid} st=A value=ERR")),
-            None => tr.obs.push(format!("D out i={tid} st=R value=?")),
+            Some(Ok((v, a))) => tr.obs.push(format!("D out i={tid} st=F value={v} assign={a}")),
+            Some(Err(_)) => tr.obs.push(format!("D out i={tid} st=A value=ERR assign=-")),
+            None => tr.obs.push(format!("D out i={tid} st=R value=? assign=-")),
         }
     }
     tr.obs.push(format!("D final bound={}", bound.load(Ordering::SeqCst)));
